@@ -8,6 +8,8 @@ func execExtraOp(ts []string) (string, bool) {
 		return execSplit(ts), true
 	case "extract":
 		return execExtract(ts), true
+	case "do":
+		return execDo(ts), true
 	}
 	return "", false
 }
